@@ -304,7 +304,7 @@ def builtin_call(ex, name, e, env):
         return out
     if name == "sum":
         v = A(0)
-        if isinstance(v, tuple) and v and v[0] == "genexp":
+        if isinstance(v, tuple) and v and isinstance(v[0], str) and v[0] == "genexp":
             _, ge, genv = v
             gen = ge.generators[0]
             it = ex.try_iter_concrete(ex.ev(gen.iter, genv))
@@ -317,7 +317,7 @@ def builtin_call(ex, name, e, env):
                     out, val = numeric_join(out, to_int(val) if is_bool(val) else val)
                     out = out + val
                 return out
-        conc = ex.try_iter_concrete(v) if not (isinstance(v, tuple) and v and v[0] == "genexp") else None
+        conc = ex.try_iter_concrete(v) if not (isinstance(v, tuple) and v and isinstance(v[0], str) and v[0] == "genexp") else None
         if conc is not None:
             out = z3.IntVal(0)
             for x in conc:
@@ -327,7 +327,7 @@ def builtin_call(ex, name, e, env):
         return agg_model(ex, "sum", v, e)
     if name in ("all", "any"):
         v = A(0)
-        if isinstance(v, tuple) and v and v[0] == "genexp":
+        if isinstance(v, tuple) and v and isinstance(v[0], str) and v[0] == "genexp":
             return quant_genexp(ex, name, v)
         conc = ex.try_iter_concrete(v)
         if conc is not None:
@@ -486,7 +486,7 @@ def deepcopy_model(ex, v, node, memo=None):
 
 def agg_model(ex, name, v, node):
     """sum/min/max over a symbolic sequence through the recursive spec function lsum / lmin / lmax"""
-    if isinstance(v, tuple) and v and v[0] == "genexp":
+    if isinstance(v, tuple) and v and isinstance(v[0], str) and v[0] == "genexp":
         raise Unsupported(f"{name} of generator over symbolic sequence")
     h = ex.deref(v)
     if isinstance(h, Obj):
@@ -600,7 +600,7 @@ def module_call(ex, qual, e, env):
         raise Unsupported("np.zeros shape")
     if qual in ("np.cos", "np.sin", "math.cos", "math.sin"):
         a0 = A(0)
-        if isinstance(a0, tuple) and a0 and a0[0] == "arccos":
+        if isinstance(a0, tuple) and a0 and isinstance(a0[0], str) and a0[0] == "arccos":
             return trig(ex, qual.split(".")[1], a0)
         return trig(ex, qual.split(".")[1], to_real(lift(a0)))
     if qual in ("np.arccos",):
@@ -650,7 +650,7 @@ def _arr2(ex, f):
 
 def trig(ex, which, x):
     """cos/sin as uninterpreted atoms with c^2+s^2=1; cos(arccos y)=y, sin(arccos y)=sqrt(1-y^2)"""
-    if isinstance(x, tuple) and x and x[0] == "arccos":
+    if isinstance(x, tuple) and x and isinstance(x[0], str) and x[0] == "arccos":
         y = x[1]
         if which == "cos":
             return y
